@@ -127,10 +127,20 @@ func RunFault(sc FaultScenario) (fs []Finding, trace string, n1, n2 int) {
 	w := NewWorld(sc.Cfg)
 	add := func(clause, what string) {
 		d := "none"
-		if len(sc.Devs) > 0 {
-			d = fmt.Sprintf("L%d:%s", sc.Devs[0].Tier, faultClass(sc.Devs[0].Fault))
+		for i, dv := range sc.Devs {
+			if i == 0 {
+				d = fmt.Sprintf("L%d:%s", dv.Tier, faultClass(dv.Fault))
+			} else {
+				d += fmt.Sprintf("+L%d:%s", dv.Tier, faultClass(dv.Fault))
+			}
 		}
-		fs = append(fs, Finding{Sig: fmt.Sprintf("C10 %s op=%s cfg=%s prior=%s fault=%s", clause, opTag(sc.Cmd), cfgClass(sc.Cfg), sc.Prior, d), What: what, Clause: clause})
+		sig := fmt.Sprintf("C10 %s op=%s cfg=%s prior=%s fault=%s", clause, opTag(sc.Cmd), cfgClass(sc.Cfg), sc.Prior, d)
+		if (clause == "stale-after-ack" || clause == "same-connection-stale") && sc.Cmd.Kind == "set" && len(sc.Devs) == 2 && sc.Devs[0].Tier == 1 && sc.Devs[1].Tier == 1 {
+			// one call site, one fault pattern: the L1 write of a set is refused and the
+			// compensating L1 delete fails as well, yet the set is acknowledged
+			sig = fmt.Sprintf("C10 set-acked-after-failed-compensating-delete orca=%s l1=%s", sc.Cfg.Orca, sc.Cfg.L1H)
+		}
+		fs = append(fs, Finding{Sig: sig, What: what, Clause: clause})
 	}
 	// prior state through a fault-free connection
 	s0 := w.Connect(0)
@@ -274,7 +284,11 @@ func RunFault(sc FaultScenario) (fs []Finding, trace string, n1, n2 int) {
 			for _, h := range rr.Hits {
 				got := fmt.Sprintf("%s/%x", h.Val, h.Flags)
 				if !allowed[got] {
-					add("same-connection-followup", fmt.Sprintf("the next command on the faulted connection returned %q (acknowledged=%v)", trunc40(got), acked))
+					cl := "same-connection-followup"
+					if acked && len(before) > 0 && got == before[0] {
+						cl = "same-connection-stale"
+					}
+					add(cl, fmt.Sprintf("the next command on the faulted connection returned %q (acknowledged=%v)", trunc40(got), acked))
 				}
 			}
 		case rr.Class == "none" && !a.Cli.Closed() && !hung && !spun && rr.Errs == 0:
@@ -427,22 +441,26 @@ func runC10(c *rt.Ctx) {
 						runOne([]Dev{d})
 					}
 					if c.Thorough() {
-						// deviation bound 2: two error statuses / cuts on different requests
-						thin := []fakemc.Fault{{Kind: fakemc.FStatus, Status: 0x82}, {Kind: fakemc.FStatus, Status: 0x01}, {Kind: fakemc.FCloseAfterProc}}
-						for i, d1 := range devs {
+						// deviation bound 2: after a first error status, a second fault on any later
+						// request of the *faulted* run (which includes compensation requests that a
+						// fault-free run never sends)
+						thin := []fakemc.Fault{{Kind: fakemc.FStatus, Status: 0x82}, {Kind: fakemc.FStatus, Status: 0x85}, {Kind: fakemc.FCloseAfterProc}, {Kind: fakemc.FCloseBefore}}
+						for _, d1 := range devs {
 							if d1.Fault.Kind != fakemc.FStatus || (d1.Fault.Status != 0x82 && d1.Fault.Status != 0x01) {
 								continue
 							}
-							for _, d2 := range devs[i+1:] {
-								if d2.Tier == d1.Tier && d2.Idx == d1.Idx {
-									continue
-								}
-								ok := false
-								for _, t := range thin {
-									ok = ok || (t.Kind == d2.Fault.Kind && t.Status == d2.Fault.Status)
-								}
-								if ok {
-									runOne([]Dev{d1, d2})
+							sc1 := base
+							sc1.Devs = []Dev{d1}
+							var m1, m2 int
+							NoBubble(func() { _, _, m1, m2 = RunFault(sc1) })
+							for tier, n := range []int{m1, m2} {
+								for idx := 0; idx < n; idx++ {
+									if tier+1 == d1.Tier && idx <= d1.Idx {
+										continue
+									}
+									for _, f := range thin {
+										runOne([]Dev{d1, {Tier: tier + 1, Idx: idx, Fault: f}})
+									}
 								}
 							}
 						}
